@@ -27,7 +27,7 @@ ASSUMPTIONS = [
 
 
 def budget(tier):
-    return 9000 if tier == 'quick' else 90000
+    return 9000 if tier == 'quick' else 300000
 
 
 def strategy(tier):
